@@ -22,6 +22,16 @@ class AnalysisError(Exception):
     pass
 
 
+def _unlimit():
+    """child processes (cargo, rustc) run without the analysis' own address-space bound"""
+    try:
+        import resource
+        hard = resource.getrlimit(resource.RLIMIT_AS)[1]
+        resource.setrlimit(resource.RLIMIT_AS, (hard, hard))
+    except (ImportError, ValueError, OSError):
+        pass
+
+
 def source_hash(repo=None):
     repo = repo or REPO
     h = hashlib.sha256()
@@ -61,7 +71,7 @@ def ensure_driver():
         return
     d = os.path.join(VERIF, 'tools', 'mirfacts')
     env = dict(os.environ, CARGO_NET_OFFLINE='true')
-    r = subprocess.run(['cargo', '+nightly', 'build', '--offline', '--release'], cwd=d, env=env,
+    r = subprocess.run(['cargo', '+nightly', 'build', '--offline', '--release'], cwd=d, env=env, preexec_fn=_unlimit,
                        capture_output=True, text=True)
     if r.returncode != 0 or not os.path.exists(DRIVER):
         raise AnalysisError('cannot build mirfacts driver:\n' + r.stderr[-4000:])
@@ -103,7 +113,7 @@ def generate(cfg, repo=None, cold=False):
     cmd = ['cargo', '+nightly', 'check', '--offline', '--bin', 'gb-dynarec']
     if cfg == 'jit':
         cmd += ['--features', 'jit']
-    r = subprocess.run(cmd, cwd=repo, env=env, capture_output=True, text=True)
+    r = subprocess.run(cmd, cwd=repo, env=env, capture_output=True, text=True, preexec_fn=_unlimit)
     if r.returncode != 0:
         raise AnalysisError('crate does not compile in configuration %r:\n%s' % (cfg, r.stderr[-6000:]))
     if not os.path.exists(out):
